@@ -11,7 +11,8 @@ import vlib as V
 
 ALL_CBS = ["result", "progress", "profile", "logs", "log", "pevents", "pevent"]
 COMPRESSIONS = ["disabled", "lz4", "zstd", "none", "lz4hc"]
-REVS = [54460, 54458, 54453, 54451, 54441, 54429]   # ch-go's Query decoder (used to tokenise) refuses revisions below 54429   # server revisions (negotiated = min(client 54460, server))
+REVS = [54460, 54458, 54453, 54451, 54441, 54429,      # server revisions (negotiated = min(client 54460, server))
+        54428, 54420, 54405, 54060, 54032, 54031, 51903, 51302, 50264, 50000]   # below 54429 the harness tokenises Query packets with a reader of its own
 
 
 def P(k, n=0):
@@ -69,6 +70,8 @@ def rand_ext(rng, p):
 
 
 def scenario(sid, c, sched="", break_at=-1, rev=54460, compression="disabled", otel=False, sweep="", stride=1, phase=0, rows_per=0):
+    if c.get("ext") and rev < 50264:
+        rev = 50264     # no table names (hence no external tables) in the protocol before that revision
     d = {"id": sid, "cfg": c, "breakAt": break_at, "sched": sched, "rev": rev, "compression": compression, "otel": otel}
     if rows_per:
         d["rowsPer"] = rows_per
